@@ -159,6 +159,38 @@ CHECKS["C07"] = {
     "explanation": "E4 accounting + E3 + structural",
 }
 
+CHECKS["C18"] = {
+    "module": "rules_c18",
+    "level": "other",
+    "quick_fs": ["default"],
+    "thorough_fs": ["default", "both"],
+    "technique": "TypeId-dispatch decision tree, Result discipline, slice-length accounting of the emitted buffer, E3 obligations",
+    "claim": "NARROW, stated as such: (V1) the generic entry points vbyte_write::<E>/vbyte_read::<E> select the _be function exactly when E = BigEndian and the _le one otherwise (sealed two-element Endianness), passing arguments and result through; (V2) the returned length equals what was emitted: BE writers return (8x) the length of buf[pos..], LE writers count exactly one emitted byte per loop iteration, bit_len_vbyte = 8*byte_len_vbyte; (V3) io writers use write_all, io readers read_exact, errors propagated; plus numeric safety of all eight functions (10-byte buffer indices, shifts) under lemma L6. NOT decided and not claimable statically: decode(encode(v)) = v, completeness/uniqueness over all byte strings, agreement of the byte values between the io and bit-stream variants, step positions of the lengths.",
+    "note": "Trusted: rustc MIR, exporter, contracts. This is a structural subset of the property; a change that only alters byte values (e.g. a wrong constant in a length table) is out of reach.",
+    "explanation": "Structural and numeric rules over the eight VByte functions and two dispatchers.",
+}
+
+CHECKS["C03"] = {
+    "module": "rules_c03",
+    "level": "proof",
+    "quick_fs": ["default", "checks"],
+    "thorough_fs": ["default", "checks", "no_copy_impls", "both"],
+    "technique": "abstract interpretation of each code's MIR under its documented domain (affine + LP, pow2/ilog2 axioms, contracts); structural rule for default parameter selection",
+    "claim": "Partial, stated as such: (K1) for gamma, delta, zeta, minimal binary, pi, Rice, Golomb, exp-Golomb, omega and VByte, under the documented domains (values up to 2^64-2, zeta k in 1..=63, k <= 63, b >= 1, max >= 1) every overflow/shift/division assert, every ilog2 argument, every read_bits/write_bits width (<= 64) and every reachable panic of the write and len functions is discharged, on the default and the `checks` feature set - exactly the large-value / large-parameter corners the suite's grid does not settle; reader functions are checked up to stream-domain assumptions (a length read in unary is bounded only by what the writer emitted); (K3) each parameterless method forwards to the *_param method of the same code on self. NOT decided: that the value read back equals the value written (needs reader/writer duality K2, not implemented, and 2^lambda arithmetic).",
+    "note": "Trusted: rustc MIR, exporter, contracts incl. codeword length bounds, LP entailment. Lemmas L4-L7 and the stream-domain assumption are listed in the evidence and never counted as discharged.",
+    "explanation": "E3 obligations + structural rule",
+}
+CHECKS["C19"] = {
+    "module": "rules_c19",
+    "level": "proof",
+    "quick_fs": ["default", "checks"],
+    "thorough_fs": ["default", "checks", "no_copy_impls", "both"],
+    "technique": "MIR differencing between feature sets with path-signature comparison; bit-range abstract domain for `value fits in n bits` at every library write_bits call site under `checks`; E3 re-run per feature set",
+    "claim": "Code the pinned suite never compiles: (G1) under `checks`, at every write_bits(v, n) issued by the code writers, the specialised and generic bulk copies and io::Write, the bit-range of v lies below n (xor-with-top-bit, masks, shifts, reader-buffer cleanliness), so the argument check cannot fire on in-domain library calls (two sites assumed: lemmas L8, L9); (G2) both write_bits impls carry the assertion value & mask(n) == value; (G3) every function whose MIR differs from the default build performs, on every path, the same stream calls with the same widths and the same result shape - only the value operand of write_bits differs; (G4) the numeric obligations of code writers and copy paths hold on each feature set (no shift/overflow that only one profile would trap). Quick covers {default, checks}; thorough all four sets. Undecided: equality of values across builds beyond this confinement.",
+    "note": "Trusted: rustc MIR per feature set, exporter, bit-range transfer functions, contracts, LP entailment.",
+    "explanation": "feature-set differencing + bit-range obligations + E3",
+}
+
 NOT_APPLICABLE = {
     "C17": "a bijection over all values of six integer widths is a statement about (x>>1)^-(x&1) on 2^n values: the generic body is a chain of operator-trait calls with no table, pairing, ordering or ownership structure to check; proving the identity needs bit-vector reasoning (a solver) or running it, both outside static analysis (DESIGN.md section 6)",
 }
